@@ -47,6 +47,12 @@ def gen_cases(ctx, impl, n_exec, n_any, n_text, n_bad):
         prog = ag.gen_exec_prog(rng, max_len=6)
         lines = ["# NETQASM 1.0", "# APPID 0"] + ac.mangle(rng, ac.render_text(rng, prog))
         cases.append(dict(flavour=fname, lines=lines, prog=prog, tag="text-mangled", execute=False))
+    # reserved registers (the builder's still-claimed registers) for a share of the IR and text callers
+    for c in cases:
+        if c["tag"] != "text-mangled" and rng.random() < 0.3:
+            c["rsv"] = [[0, i] for i in rng.sample(range(16), rng.choice([1, 2, 4, 8]))]
+            if rng.random() < 0.2:
+                c["rsv"].append([rng.randint(1, 3), rng.randrange(16)])
     return cases
 
 
@@ -137,9 +143,12 @@ def seq_stage(ctx, impl, n, prefix="seq"):
         fname = rng.choice(ac.FLAVS)
         progs = ag.gen_sequence(rng)
         steps, subs = [], []
-        for prog in progs:
-            out, sub = impl.assemble_ir(fname, prog)
-            steps.append(dict(prog=prog, out=out, obs=None))
+        live = sorted({(o[1], o[2]) for c in progs[0] if c[0] == "ins" for o in c[3] if o[0] == "reg"})
+        for j, prog in enumerate(progs):
+            # later subroutines get (a part of) the registers defined by the first one as reserved
+            rsv = [list(r) for r in live if rng.random() < 0.7] if j > 0 and rng.random() < 0.6 else []
+            out, sub = impl.assemble_ir(fname, prog, rsv)
+            steps.append(dict(prog=prog, out=out, obs=None, rsv=rsv))
             if sub is None:
                 break
             subs.append(sub)
@@ -156,7 +165,7 @@ def seq_stage(ctx, impl, n, prefix="seq"):
     n_v = 0
     for (f, i), code in sorted(bad.items()):
         c = per[f][i]
-        rd = dict(flavour=f, sequence=[st["prog"] for st in c["steps"]],
+        rd = dict(flavour=f, sequence=[st["prog"] for st in c["steps"]], reserved=[st.get("rsv") or [] for st in c["steps"]],
                   implementation_results=[st["out"] for st in c["steps"]], executor=[st["obs"] for st in c["steps"]])
         if code & 2:
             n_v += 1
@@ -209,9 +218,9 @@ def q_stage(ctx, impl, n):
 def run_impl(impl, c):
     """fill c['out'], c['obs'] from the real assembler / executor"""
     if c["lines"] is not None:
-        out, sub = impl.assemble_text(c["flavour"], "\n".join(c["lines"]) + "\n")
+        out, sub = impl.assemble_text(c["flavour"], "\n".join(c["lines"]) + "\n", c.get("rsv"))
     else:
-        out, sub = impl.assemble_ir(c["flavour"], c["prog"])
+        out, sub = impl.assemble_ir(c["flavour"], c["prog"], c.get("rsv"))
     c["out"], c["fuel"], c["obs"] = out, BOUND, None
     if sub is not None and c["execute"]:
         c["obs"] = impl.execute(sub, BOUND)
@@ -219,7 +228,7 @@ def run_impl(impl, c):
 
 
 def replay_dict(c):
-    d = dict(flavour=c["flavour"], implementation_result=c["out"], executor=c["obs"])
+    d = dict(flavour=c["flavour"], implementation_result=c["out"], executor=c["obs"], reserved_registers=c.get("rsv") or [])
     if c["lines"] is not None:
         d["lines"] = c["lines"]
     else:
@@ -327,7 +336,8 @@ def search(ctx, impl):
     for _ in range(600):
         prog = ag.gen_exec_prog(rng, max_len=8)
         if rng.random() < 0.5:
-            cases.append(dict(flavour="vanilla", lines=None, prog=prog, tag="search", execute=True))
+            cases.append(dict(flavour="vanilla", lines=None, prog=prog, tag="search", execute=True,
+                              rsv=[[0, i] for i in rng.sample(range(16), rng.choice([0, 2, 6]))]))
         else:
             cases.append(dict(flavour="vanilla", lines=["# NETQASM 1.0", "# APPID 0"] + ac.render_text(rng, prog),
                               prog=prog, tag="search", execute=True))
@@ -345,9 +355,10 @@ def replay(ctx, path):
     impl = ac.prepare(ctx)
     if "sequence" in rec:
         steps, subs = [], []
-        for prog in rec["sequence"]:
-            out, sub = impl.assemble_ir(rec["flavour"], prog)
-            steps.append(dict(prog=prog, out=out, obs=None))
+        for j, prog in enumerate(rec["sequence"]):
+            rsv = (rec.get("reserved") or [[]] * len(rec["sequence"]))[j]
+            out, sub = impl.assemble_ir(rec["flavour"], prog, rsv)
+            steps.append(dict(prog=prog, out=out, obs=None, rsv=rsv))
             if sub is None:
                 break
             subs.append(sub)
@@ -361,7 +372,8 @@ def replay(ctx, path):
             else:
                 ctx.broken.append(f"correspondence on the replayed sequence (code {code})")
         return ctx.finish()
-    c = dict(flavour=rec["flavour"], lines=rec.get("lines"), prog=rec.get("prog", []), tag="replay", execute=True)
+    c = dict(flavour=rec["flavour"], lines=rec.get("lines"), prog=rec.get("prog", []), tag="replay", execute=True,
+             rsv=rec.get("reserved_registers") or [])
     differing = evaluate(ctx, impl, [c], "replay")
     print("replay:", json.dumps(replay_dict(c))[:2000], "codes:", [code for _, code in differing])
     report(ctx, differing)
